@@ -152,6 +152,16 @@ ResumeLazy(t) ==
        /\ SetF(t, Len(frames[t]), [p EXCEPT !.pc = IF p.hold THEN "in" ELSE "start"])
   /\ UNCHANGED <<inst, lc0, lc, owner, calls>>
 
+(* property: the operand of a generator call site is evaluated before the `with`; an    *)
+(* error in it ends the call before anything global was touched                         *)
+ArgError(t) ==
+  LET r == Run(t) IN
+  /\ Prop /\ r # 0
+  /\ LET f == frames[t][r] IN
+       /\ f.k = "gen" /\ f.pc = "start"
+       /\ frames' = [frames EXCEPT ![t] = PopAt(@, r, "raised")]
+  /\ UNCHANGED <<inst, lc0, lc, owner, calls>>
+
 (* ---- CollationManager.__enter__ ------------------------------------------ *)
 Enter0(t) ==      \* lc_collate is None: no lock, no locale
   LET r == Run(t) IN
@@ -251,8 +261,9 @@ Unwind(t) ==      \* an error raised by the body, or by the operand of a lazy fr
   /\ \/ LET r == Run(t) IN
         /\ r # 0
         /\ LET f == frames[t][r] IN
-             /\ f.pc = "in" /\ f.k # "lazy"
-             /\ Leave(f)
+             /\ f.pc = "in"
+             /\ f.k = "plain" \/ (f.k = "gen" /\ Pinned /\ f.hold)  \* a generator body fails only through a
+             /\ Leave(f)                                             \* lazily pulled operand (pinned)
              /\ frames' = [frames EXCEPT ![t] = PopAt(@, r, "raised")]
      \/ /\ Run(t) = 0 /\ Len(frames[t]) > 0
         /\ LET p == Last(frames[t]) IN
@@ -304,7 +315,7 @@ Abandon(t, i) ==     \* the consumer drops the generator: GeneratorExit runs __e
 
 (* everything a thread does once it has been called (the obligations of fairness) *)
 ThreadStep(t) ==
-  \/ EvalArgs(t) \/ LeaveHolding(t) \/ ResumeLazy(t) \/ Enter0(t) \/ Acquire(t) \/ ReadCurrent(t)
+  \/ EvalArgs(t) \/ LeaveHolding(t) \/ ResumeLazy(t) \/ ArgError(t) \/ Enter0(t) \/ Acquire(t) \/ ReadCurrent(t)
   \/ \E res \in {"ok", "fail"} : SetLocale(t, res)
   \/ \E res \in {"ok", "fail"} : Fallback(t, res)
   \/ RaiseFromEnter(t) \/ LeakRaise(t) \/ Exit(t) \/ ExitGen(t) \/ Unwind(t)
@@ -319,6 +330,7 @@ Next ==
   \/ \E t \in Threads : EvalArgs(t)
   \/ \E t \in Threads : LeaveHolding(t)
   \/ \E t \in Threads : ResumeLazy(t)
+  \/ \E t \in Threads : ArgError(t)
   \/ \E t \in Threads : Enter0(t)
   \/ \E t \in Threads : Acquire(t)
   \/ \E t \in Threads : ReadCurrent(t)
